@@ -165,7 +165,7 @@ def _instantiate(it: Interp, v, env: Dict[int, str]):
         if isinstance(val, SymChar):
             sval = env[val.cid]
         elif isinstance(val, SymStr):
-            sval = "".join(x if isinstance(x, str) else env[x.cid] for x in val.items)
+            sval = "".join(x if isinstance(x, str) else (x.fn(env[x.cid]) if hasattr(x, "fn") else env[x.cid]) for x in val.items)
         elif isinstance(val, str):
             sval = val
         else:
@@ -204,7 +204,7 @@ def run(chk: Check) -> None:
     for r in ("C11.R2", "C11.R3", "C11.R4", "C11.R5"):
         chk.rule(r, "classification of a disagreement (operator table / end marker / unsupported char / boundaries)", minimum=0)
     U = universe()
-    small = frozenset("sgnx7.+ #")
+    small = frozenset("sgnSGNx7.+ #")
     L = 2 if chk.tier == "quick" else 3
     chk.explanation = (
         f"Decides: Tokenizer.tokenize, interpreted from source on symbolic strings of length 0..{L} over an alphabet of "
